@@ -17,7 +17,8 @@ def mover_kinds(rng, a, rows, cols):
     r = rng.random()
     if r < 0.75:
         a["moving"] = True
-        a["move_range"] = rng.choice([0, 1, 1, 2, "FULL"])
+        a["move_range"] = rng.choice([0, 1, 1, 2, "FULL"]) if max(rows, cols) < 8 else \
+            rng.choice([1, 2, 5, 8, max(rows, cols) - 1, max(rows, cols) + 2, "FULL"])   # big worlds: long moves too
         if rng.random() < 0.6:
             a["has_orient"] = True
             a["init_orient"] = rng.choice([None, 1, 2, 3, 4])
